@@ -27,11 +27,12 @@ type deferred struct {
 }
 
 type State struct {
-	heap   map[string]string
-	ep     *epoch // initial values of names not in heap
-	cells  map[int]Val
-	defers []deferred
-	locks  map[string]string // monitor key -> Bool term "held"
+	heap     map[string]string
+	ep       *epoch // initial values of names not in heap
+	cells    map[int]Val
+	defers   []deferred
+	locks    map[string]string // monitor key -> Bool term "held"
+	lockSnap map[string]*State // monitor key -> state at write-lock acquisition
 }
 
 func newState(ep *epoch) *State {
@@ -50,6 +51,12 @@ func (s *State) clone() *State {
 		n.locks[k] = v
 	}
 	n.defers = append([]deferred{}, s.defers...)
+	if s.lockSnap != nil {
+		n.lockSnap = make(map[string]*State, len(s.lockSnap))
+		for k, v := range s.lockSnap {
+			n.lockSnap[k] = v
+		}
+	}
 	return n
 }
 
@@ -118,8 +125,15 @@ func (fc *FnCtx) nameTerm(prefix, sort, t string) string {
 	if len(t) < 40 {
 		return t
 	}
+	if fc.named == nil {
+		fc.named = map[string]string{}
+	}
+	if c, ok := fc.named[sort+"|"+t]; ok {
+		return c // the same term always gets the same name (lock keys and contract terms rely on it)
+	}
 	c := fc.sc.fresh(prefix, sort)
 	fc.sc.assume(tEq(c, t))
+	fc.named[sort+"|"+t] = c
 	return c
 }
 
